@@ -11,6 +11,7 @@ package mcpx
 
 import (
 	"context"
+	"encoding/json"
 	"errors"
 	"fmt"
 	"strings"
@@ -35,6 +36,10 @@ type c13Spec struct {
 	Hand       string   `json:"hand,omitempty"`        // how the session came about: "" legacy initialize | fallback (client asked for its default version, the peer only knows initialize) | none (server: the peer never sends initialize) | discover (server: the peer opens with server/discover)
 	Pending    bool     `json:"pending,omitempty"`     // a user call that the peer never answers is outstanding (no deadline)
 	PendAnswer int      `json:"pend_answer,omitempty"` // > 0 (live peers only): the peer answers that call this many thirds of an interval after the harness called Close
+	// Incoming: right after the handshake the peer sends the session one request whose handler is still running when
+	// the pings start to fail: "parked" (it waits for its context to end, as a long-running tool does) or "busy"
+	// (it works for 2.5 intervals, ignoring its context). A dead peer must be given up on time all the same.
+	Incoming string `json:"incoming,omitempty"`
 }
 
 func genC13(r *vh.Rand, idx int) c13Spec {
@@ -83,6 +88,9 @@ func genC13(r *vh.Rand, idx int) c13Spec {
 			s.Pattern[i] = "A"
 		}
 		s.PendAnswer = r.Range(2, 14)
+	}
+	if !s.Pending && s.Hand == "" && r.Chance(1, 4) {
+		s.Incoming = "parked"
 	}
 	if s.Pending && s.PendAnswer == 0 && r.Chance(1, 2) {
 		// the application's Close arrives while the ping that completes the failure threshold is in flight
@@ -208,6 +216,15 @@ func runC13(c *vh.Case, spec c13Spec) {
 		sc.Inject(vhm.Resp(req.ID, `{}`))
 		return nil
 	}
+	hold := func(hctx context.Context) {
+		log.Add("incoming-handler-start")
+		if spec.Incoming == "busy" {
+			time.Sleep(2*iv + iv/2)
+		} else {
+			<-hctx.Done()
+		}
+		log.Add("incoming-handler-finish")
+	}
 	var closeFn func() error
 	var waitFn func() error
 	var userCall func() error
@@ -215,7 +232,11 @@ func runC13(c *vh.Case, spec c13Spec) {
 	uctx, ucancel := context.WithCancel(ctx)
 	defer ucancel()
 	if spec.Side == "client" {
-		client := mcp.NewClient(&mcp.Implementation{Name: "c", Version: "1"}, &mcp.ClientOptions{KeepAlive: iv, KeepAliveFailureThreshold: spec.Threshold})
+		client := mcp.NewClient(&mcp.Implementation{Name: "c", Version: "1"}, &mcp.ClientOptions{KeepAlive: iv, KeepAliveFailureThreshold: spec.Threshold,
+			CreateMessageHandler: func(hctx context.Context, _ *mcp.CreateMessageRequest) (*mcp.CreateMessageResult, error) {
+				hold(hctx)
+				return &mcp.CreateMessageResult{Model: "m", Role: "assistant", Content: &mcp.TextContent{Text: "x"}}, nil
+			}})
 		cso := &mcp.ClientSessionOptions{ProtocolVersion: "2025-06-18"}
 		if spec.Hand == "fallback" {
 			cso = nil
@@ -229,8 +250,15 @@ func runC13(c *vh.Case, spec c13Spec) {
 		if spec.Pending {
 			userCall = func() error { _, err := cs.ListTools(uctx, nil); return err }
 		}
+		if spec.Incoming != "" {
+			sc.Inject(vhm.Req("hold", "sampling/createMessage", `{"messages":[{"role":"user","content":{"type":"text","text":"x"}}],"maxTokens":1}`))
+		}
 	} else {
 		server := mcp.NewServer(&mcp.Implementation{Name: "s", Version: "1"}, &mcp.ServerOptions{KeepAlive: iv, KeepAliveFailureThreshold: spec.Threshold})
+		server.AddTool(&mcp.Tool{Name: "hold", InputSchema: json.RawMessage(`{"type":"object"}`)}, func(hctx context.Context, _ *mcp.CallToolRequest) (*mcp.CallToolResult, error) {
+			hold(hctx)
+			return &mcp.CallToolResult{Content: []mcp.Content{&mcp.TextContent{Text: "held"}}}, nil
+		})
 		ss, err := server.Connect(ctx, sc, nil)
 		if err != nil {
 			c.Inconclusive("connect: %v", err)
@@ -243,6 +271,9 @@ func runC13(c *vh.Case, spec c13Spec) {
 		default:
 			sc.Inject(vhm.Req("init", "initialize", `{"protocolVersion":"2025-06-18","capabilities":{"roots":{}},"clientInfo":{"name":"x","version":"1"}}`))
 			sc.Inject(vhm.Req(nil, "notifications/initialized", `{}`))
+		}
+		if spec.Incoming != "" {
+			sc.Inject(vhm.Req("hold", "tools/call", `{"name":"hold","arguments":{}}`))
 		}
 		closeFn, waitFn = ss.Close, ss.Wait
 		if spec.Pending && spec.Hand == "" {
@@ -264,6 +295,11 @@ func runC13(c *vh.Case, spec c13Spec) {
 	}
 	time.Sleep(time.Duration(spec.CloseAfter)*iv + iv/4)
 	if userCall == nil {
+		if spec.Incoming == "parked" {
+			// a live peer withdraws its request before the application closes (a graceful Close waits for handlers)
+			sc.Inject(vhm.Req(nil, "notifications/cancelled", `{"requestId":"hold"}`))
+			synctestWait()
+		}
 		log.Add("harness-close")
 		closeFn()
 	} else {
